@@ -677,6 +677,7 @@ func runC02(c *Ctx) {
 		if pc := c.Prog(cf); pc != nil {
 			ruleSwapRegion(c, pc, "C02.swap")
 			ruleExitGuards(c, pc, "C02.guard")
+			ruleEncoderPure(c, pc, "C02.pure")
 		}
 	}
 	ruleTableLookups(c, p, "C02.tables")
